@@ -45,9 +45,15 @@ def pipeD (op : String) (args : List Nat) : Option String :=
   | "pipetrace" => some <| match runP (do let w ← pNat; let n ← pNat; let evs ← pEvents; pure (w, n, evs)) args with
       | some (w, n, evs) =>
         if w == 0 then reject else
-        match replayTrace (PState.init w n) 0 evs with
+        match replayTrace (PState.init w (fused n)) 0 evs with
         | .inr s => " ".intercalate ("accept" :: (eNats s.recvd).map toString)
         | .inl k => s!"refuse {k}"
+      | none => reject
+  | "pipegap" => some <| match runP (do let w ← pNat; let k ← pNat; let es ← pList pBool; pure (w, k, es)) args with
+      -- an upstream that need not be fused (1 = an item, 0 = `None`, then `None` for ever), consumed `k` times:
+      -- every `None` ends one worker, so the pipe delivers the items before the `w`-th `None`
+      -- (`pipe_complete_gapDelivered`); unthreaded (`w = 0`, `iter.map(f)`) the loop stops at the first `None`
+      | some (w, k, es) => ok [min k (if w == 0 then (es.takeWhile id).length else gapDelivered w es)]
       | none => reject
   | "pipestress" => some <| match args with
       | [_, n, _] => ok [n]
@@ -71,6 +77,11 @@ def pipeD (op : String) (args : List Nat) : Option String :=
   | "pipeidle" => some <| match args with
       -- consumed items: min k n (the lookahead bound itself is `pipe_lookahead`; on the real code it is a timed observation)
       | [_, n, k, _] => ok [min k n]
+      | _ => reject
+  | "pipestall" => some <| match args with
+      -- a very slow item in one pipe, a long pause of the consumer of another: the model has no clock, both pipes
+      -- are the sequential map (`pipe_complete`)
+      | [_, n, _, _, _, _] => ok [n, n]
       | _ => reject
   | "pipeslow" => some <| match args with
       | [_, n, _, _] => ok [n]
